@@ -14,7 +14,7 @@ func init() {
 func planC02(c *Ctx) epochPlan {
 	seeds := []string{"xor", "evolved", "disc", "rand", "randrec", "hb3", "read", "hb4"}
 	if !c.Quick() {
-		seeds = append(seeds, "hb1", "hb5")
+		seeds = append(seeds, "hb1", "hb5", "hbd1", "hbd2")
 	}
 	modes := []string{"whole", "phase", "perspecies", "par", "whole", "parrev"}
 	fits := []int{0, 1, 2, 3, 4, 5, 6}
